@@ -1,2 +1,253 @@
+"""C09  Integral defuzzifiers return the defined point of the sampled fuzzy set.
+
+1. TLC: spec/MC_Integral - aggregated sets of 0..2 (thorough 3) activated terms (Rectangle, Triangle,
+   Trapezoid, Ramp, Discrete with plateaus, ties and several maxima) x 4 degrees x 3 implications x 3
+   aggregations x resolutions {1,2,4,8} plus seeded cases (other ranges, resolutions 5,10,16, 3-5 terms):
+   result in [min,max]; SOM <= MOM <= LOM; NaN iff the membership is zero at every sample point;
+   centroid translation equivariance.  Each state carries x, y and the five results.
+2. Three links bind it to the code (DESIGN.md C09): (0) Op.midpoints vs the exact midpoints; (1) the
+   code's sampled membership vs the specification's AggMu at the same points; (2) each defuzzifier's
+   result vs the property's reduction applied to the code's own (x, y), tie-aware for Bisector; on
+   cases without ties the end-to-end value must also equal TLC's exact value.
+3. Batches of degree vectors give the per-set results; resolutions 100 and 1000, random ranges and tiny
+   degrees are checked through links 0 and 2 and the relations (range, order, NaN-iff-empty, translation).
+"""
+from __future__ import annotations
+
+import math
+import random
+from fractions import Fraction as F
+
+import numpy as np
+
+from . import core, pyref
+from .edl import build_term
+from .tlc import MachineryError, write_cfg
+from .xreal import from_number, to_float, to_fraction
+
+INVS = ["InRange", "Ordered", "NaNIffEmpty", "Translation"]
+CLS = ["Bisector", "Centroid", "LargestOfMaximum", "MeanOfMaximum", "SmallestOfMaximum"]
+
+
+def feq(a, b, tol=1e-9):
+    a, b = float(a), float(b)
+    if math.isnan(a) or math.isnan(b):
+        return math.isnan(a) and math.isnan(b)
+    return abs(a - b) <= tol * max(1.0, abs(a), abs(b))
+
+
+def build_set(fl, c, degrees=None):
+    acts = []
+    for j, a in enumerate(c["acts"]):
+        t = a["t"]
+        term = build_term(fl, t)
+        d = degrees[j] if degrees is not None else to_float(a["d"])
+        acts.append(fl.Activated(term, d, getattr(fl, a["impl"])()))
+    return fl.Aggregated("o", to_float(c["lo"]), to_float(c["hi"]), getattr(fl, c["aggr"])(), acts)
+
+
+def sampled(agg, x):
+    """the membership vector the defuzzifiers see (an empty fuzzy output yields a 0-d zero that broadcasts)"""
+    y = np.atleast_1d(np.asarray(agg.membership(x), dtype=float))
+    return np.broadcast_to(y, x.shape) if y.size == 1 else y
+
+
+def own_reduction_ok(fl, cls, agg, lo, hi, res, got):
+    """link 2: the code's result is the property's reduction of the code's own sampled set"""
+    x = np.asarray(fl.Op.midpoints(lo, hi, res), dtype=float)
+    y = sampled(agg, x)
+    red = pyref.reductions(x.tolist(), y.tolist())[cls]
+    return any(feq(got, r, 1e-12) for r in red), red
+
+
 def tie_tolerant(e, o, exp):
-    return False
+    """used by the engine-level checks: accept an output under a tie-prone defuzzifier iff link 2 holds"""
+    import fuzzylite as fl
+
+    v = e.output_variables[o]
+    dz = v.defuzzifier
+    if type(dz).__name__ not in CLS:
+        return False
+    try:
+        raw = float(np.asarray(dz.defuzzify(v.fuzzy, v.minimum, v.maximum)))
+        ok, _ = own_reduction_ok(fl, type(dz).__name__, v.fuzzy, v.minimum, v.maximum, dz.resolution, raw)
+        return bool(ok)
+    except Exception:
+        return False
+
+
+def check_case(ctx, fl, c, where):
+    lo, hi, res = to_float(c["lo"]), to_float(c["hi"]), c["res"]
+    agg = build_set(fl, c)
+    case = {k: c[k] for k in ("acts", "aggr", "res", "lo", "hi")}
+    # link 0: abscissae
+    x = np.asarray(fl.Op.midpoints(lo, hi, res), dtype=float)
+    xs = [to_float(v) for v in c["xs"]]
+    ctx.count()
+    if len(x) != len(xs) or not all(abs(a - b) <= 4 * math.ulp(max(1.0, abs(b))) for a, b in zip(x, xs)):
+        ctx.violation("Op.midpoints", case, xs, x.tolist())
+        return
+    # link 1: sampling
+    y = sampled(agg, x)
+    ys = [to_float(v) for v in c["ys"]]
+    ctx.count()
+    if y.shape != (len(ys),) or not all(feq(a, b) for a, b in zip(y, ys)):
+        ctx.violation(f"{where}/sampling/{c['aggr']}", case, ys, y.tolist(), note="Aggregated.membership at the sample points differs from the aggregated membership of the specification")
+        return
+    # link 2 and end-to-end
+    for cls in CLS:
+        dz = getattr(fl, cls)(res)
+        got = float(np.asarray(dz.defuzzify(agg, lo, hi)))
+        ctx.count()
+        ok, red = own_reduction_ok(fl, cls, agg, lo, hi, res, got)
+        if not ok:
+            ctx.violation(f"{where}/{cls}/reduction", case, red, got, note=f"{cls} is not the defined point of the set the code itself sampled")
+            continue
+        exact = to_float(c["v"][cls])
+        if not feq(got, exact):
+            # accepted only as a tie broken by rounding: the exact value must be among the tie-aware reductions too
+            if any(feq(exact, r, 1e-9) for r in red):
+                ctx.extra["accepted_by_tie_tolerance"] = ctx.extra.get("accepted_by_tie_tolerance", 0) + 1
+            else:
+                ctx.violation(f"{where}/{cls}/value", case, exact, got, note=f"{cls} differs from the exact value of the specification and no tie explains it")
+        if not math.isnan(got) and not (lo - 1e-12 <= got <= hi + 1e-12):
+            ctx.violation(f"{where}/{cls}/range", case, [lo, hi], got)
+
+
+def relations(ctx, fl, agg, lo, hi, res, case, shifted=None):
+    """range, order, NaN-iff-empty on the code's outputs (any resolution / range)"""
+    x = np.asarray(fl.Op.midpoints(lo, hi, res), dtype=float)
+    y = sampled(agg, x)
+    vals = {}
+    for cls in CLS:
+        got = float(np.asarray(getattr(fl, cls)(res).defuzzify(agg, lo, hi)))
+        vals[cls] = got
+        ctx.count()
+        ok, red = own_reduction_ok(fl, cls, agg, lo, hi, res, got)
+        if not ok:
+            ctx.violation(f"relations/{cls}/reduction", case, red[:4], got)
+        if not math.isnan(got) and not (lo - 1e-9 * (1 + abs(lo)) <= got <= hi + 1e-9 * (1 + abs(hi))):
+            ctx.violation(f"relations/{cls}/range", case, [lo, hi], got)
+        empty = bool(np.all(y == 0))
+        if math.isnan(got) != empty and not np.any(np.isnan(y)):
+            ctx.violation(f"relations/{cls}/nan-iff-empty", case, "NaN" if empty else "a value", got)
+    s, m, l = vals["SmallestOfMaximum"], vals["MeanOfMaximum"], vals["LargestOfMaximum"]
+    if not math.isnan(s) and not (s <= m + 1e-12 and m <= l + 1e-12):
+        ctx.violation("relations/som<=mom<=lom", case, "ordered", [s, m, l])
+    return vals
+
+
+def run(ctx: core.Ctx):
+    fl = core.import_fuzzylite()
+    rng = random.Random(ctx.seed)
+    ml = 2 if ctx.quick else 3
+    head = "SPECIFICATION Spec\nCONSTANTS FromFile = {ff}\n  Emit = {e}\n  MaxLen = {ml}\n"
+    ctx.expect_holds(ctx.tlc("MC_Integral", write_cfg("MC_Integral", head.format(ff="FALSE", e="FALSE", ml=ml) + "".join(f"INVARIANT {i}\n" for i in INVS) + "CHECK_DEADLOCK FALSE\n"), workers=16, timeout=3000), "MC_Integral")
+    g = ctx.tlc("MC_Integral", write_cfg("Gen_Integral", head.format(ff="FALSE", e="TRUE", ml=2) + "INVARIANT EmitInv\nCHECK_DEADLOCK FALSE\n"), workers=1, timeout=3000)
+    if len(g.emitted) < 15000:
+        raise MachineryError(f"only {len(g.emitted)} integral cases emitted")
+    for i, c in enumerate(g.emitted):
+        if ctx.quick and i % 3:
+            continue
+        check_case(ctx, fl, c, "enumerated")
+        ctx.traces += 1
+        ctx.case(("e", i), nontrivial=any(v != [0, 0, 1] for v in c["ys"]))
+    ctx.sample({k: g.emitted[5000][k] for k in ("acts", "aggr", "res", "ys", "v")})
+    # seeded cases through the case file: other ranges, resolutions, more terms
+    pal = [{"name": "rect", "k": "Rectangle", "p": ["1/8", "3/8"], "h": "1"}, {"name": "tri", "k": "Triangle", "p": ["1/4", "1/2", "3/4"], "h": "1"},
+           {"name": "trap", "k": "Trapezoid", "p": ["1/2", "5/8", "7/8", "1"], "h": "3/4"}, {"name": "ramp", "k": "Ramp", "p": ["3/4", "1/4"], "h": "1"},
+           {"name": "rect2", "k": "Rectangle", "p": ["5/8", "1"], "h": "1/2"}, {"name": "tri2", "k": "Triangle", "p": ["0", "0", "1/2"], "h": "1"}]
+    file_cases = []
+    for _ in range(400 if ctx.quick else 4000):
+        n = rng.randint(1, 4)
+        shift, scale = rng.choice([(F(0), F(1)), (F(-1), F(2)), (F(3), F(1, 2)), (F(-2), F(4))])
+        ag = rng.choice(["Maximum", "BoundedSum", "AlgebraicSum", "NilpotentMaximum", "DrasticSum"])
+        im = rng.choice(["Minimum", "AlgebraicProduct", "BoundedDifference", "DrasticProduct", "NilpotentMinimum"])
+        mult = ag == "AlgebraicSum" or im == "AlgebraicProduct"
+        acts = []
+        for _ in range(n):
+            t = dict(rng.choice(pal))
+            t["p"] = [from_number(shift + scale * F(v)) for v in t["p"]]
+            t["h"] = from_number(F(t["h"]))
+            acts.append({"term": t, "d": from_number(rng.choice([F(0), F(1, 2), F(1)] if mult else [F(0), F(1, 4), F(1, 2), F(3, 4), F(1)])), "impl": im})
+        file_cases.append({"acts": acts, "aggr": ag, "res": rng.choice([1, 2, 4, 5, 8] if mult else [1, 2, 3, 4, 5, 8, 10, 16]),
+                           "lo": from_number(shift), "hi": from_number(shift + scale)})
+    gfs = ctx.tlc_cases("MC_Integral", write_cfg("File_Integral", head.format(ff="TRUE", e="TRUE", ml=0) + "".join(f"INVARIANT {i}\n" for i in INVS) + "INVARIANT EmitInv\nCHECK_DEADLOCK FALSE\n"),
+                        file_cases, label="integral", workers=8, timeout=3000)
+    nfile = 0
+    for gf in gfs:
+        ctx.expect_holds(gf, "MC_Integral[file]")
+        for c in gf.emitted:
+            c = dict(c, acts=[{"t": a["t"], "d": a["d"], "impl": a["impl"]} for a in c["acts"]])
+            check_case(ctx, fl, c, "seeded")
+            nfile += 1
+            ctx.case(("f", nfile), nontrivial=any(v != [0, 0, 1] for v in c["ys"]))
+    ctx.traces += nfile
+    ctx.extra["seeded_cases_evaluated_by_tlc"] = nfile
+    # batches: enumerated cases with the same terms / operators / resolution stacked along the batch axis
+    groups = {}
+    for c in g.emitted:
+        if c["acts"]:
+            groups.setdefault((tuple((a["t"]["name"], a["impl"]) for a in c["acts"]), c["aggr"], c["res"]), []).append(c)
+    nb = 0
+    for key, cs in groups.items():
+        nb += 1
+        if ctx.quick and nb % 6:
+            continue
+        cols = [np.array([to_float(c["acts"][j]["d"]) for c in cs]) for j in range(len(key[0]))]
+        agg = build_set(fl, cs[0], degrees=cols)
+        for cls in CLS:
+            got = np.atleast_1d(np.asarray(getattr(fl, cls)(key[2]).defuzzify(agg, 0.0, 1.0), dtype=float))
+            ctx.count()
+            each = [float(np.asarray(getattr(fl, cls)(key[2]).defuzzify(build_set(fl, c), 0.0, 1.0))) for c in cs]
+            if got.shape != (len(cs),) or not all(feq(a, b, 1e-12) for a, b in zip(got, each)):
+                ctx.violation(f"batch/{cls}/{'resolution-1' if key[2] == 1 else 'resolution>1'}", {"terms": [k[0] for k in key[0]], "aggr": key[1], "res": key[2], "batch": len(cs)}, each, got.tolist(),
+                              note="a batch of sets does not give the per-set results")
+    # large resolutions, arbitrary ranges, tiny degrees: links 0/2 and the relations on the code's outputs
+    n = 60 if ctx.quick else 600
+    for i in range(n):
+        lo = rng.choice([0.0, -1.0, -3.7, 10.0, -1e3, 0.1])
+        hi = lo + rng.choice([1.0, 2.0, 0.3, 7.5, 1e3])
+        res = rng.choice([100, 1000, 7, 33, 999])
+        w = hi - lo
+        mk = [lambda: fl.Triangle("a", lo + 0.1 * w, lo + 0.3 * w, lo + 0.6 * w), lambda: fl.Rectangle("b", lo + 0.5 * w, lo + 0.8 * w),
+              lambda: fl.Trapezoid("c", lo, lo + 0.2 * w, lo + 0.4 * w, lo + 0.9 * w, 0.5), lambda: fl.Gaussian("d", lo + 0.7 * w, 0.1 * w),
+              lambda: fl.Ramp("e", lo + 0.9 * w, lo + 0.2 * w)]
+        k = rng.randint(0, 4)
+        im = getattr(fl, rng.choice(["Minimum", "AlgebraicProduct", "EinsteinProduct"]))
+        ag = getattr(fl, rng.choice(["Maximum", "AlgebraicSum", "BoundedSum", "EinsteinSum"]))
+        degs = [rng.choice([rng.random(), 1.0, 0.0, 1e-5, 2e-9, 0.5]) for _ in range(k)]
+        tsel = [rng.randrange(len(mk)) for _ in range(k)]
+        agg = fl.Aggregated("o", lo, hi, ag(), [fl.Activated(mk[t](), d, im()) for t, d in zip(tsel, degs)])
+        case = {"lo": lo, "hi": hi, "res": res, "terms": tsel, "degrees": degs, "impl": im.__name__, "aggr": ag.__name__}
+        xm = np.asarray(fl.Op.midpoints(lo, hi, res), dtype=float)
+        exact = [float(F(lo) + (F(2 * j + 1, 2 * res)) * (F(hi) - F(lo))) for j in range(res)]
+        if len(xm) != res or max(abs(a - b) for a, b in zip(xm, exact)) > 8 * math.ulp(max(abs(lo), abs(hi), 1.0)):
+            ctx.violation("Op.midpoints/random-range", case, exact[:3], xm[:3].tolist())
+        v1 = relations(ctx, fl, agg, lo, hi, res, case)
+        # translation of set and range by c moves the centroid by c
+        c = rng.choice([-1.0, 0.5, 3.0])
+        lo2, hi2, w2 = lo + c, hi + c, hi - lo
+        mk2 = [lambda: fl.Triangle("a", lo2 + 0.1 * w2, lo2 + 0.3 * w2, lo2 + 0.6 * w2), lambda: fl.Rectangle("b", lo2 + 0.5 * w2, lo2 + 0.8 * w2),
+               lambda: fl.Trapezoid("c", lo2, lo2 + 0.2 * w2, lo2 + 0.4 * w2, lo2 + 0.9 * w2, 0.5), lambda: fl.Gaussian("d", lo2 + 0.7 * w2, 0.1 * w2),
+               lambda: fl.Ramp("e", lo2 + 0.9 * w2, lo2 + 0.2 * w2)]
+        agg2 = fl.Aggregated("o", lo2, hi2, ag(), [fl.Activated(mk2[t](), d, im()) for t, d in zip(tsel, degs)])
+        c2 = float(np.asarray(fl.Centroid(res).defuzzify(agg2, lo2, hi2)))
+        if not feq(c2, v1["Centroid"] + c, 1e-6 * max(1.0, abs(lo), abs(hi)) / 1.0) and not (math.isnan(c2) and math.isnan(v1["Centroid"])):
+            ctx.violation("relations/Centroid/translation", dict(case, shift=c), v1["Centroid"] + c, c2)
+    ctx.exhaustive = True
+    ctx.rule = (f"TLC enumerates sets of 0..{ml} activated terms over 5 terms x 4 degrees x 3 implications x 3 aggregations x 4 resolutions (replayed to 2 terms"
+                f"{', every third in the quick tier' if ctx.quick else ''}) and evaluates seeded cases (4 ranges, 5 implications, 5 aggregations, resolutions to 16, up to 4 terms); "
+                "each replayed case goes through the three links for all 5 defuzzifiers; batches; large resolutions / arbitrary ranges / tiny degrees through "
+                "links 0, 2 and the relations; non-trivial = the sampled membership is not identically zero")
+    ctx.assumptions += ["'sample points' and 'tied points' are the ones the code computed: ties that rounding breaks are accepted when the result is the reduction of "
+                        "the code's own (x, y) (counted in accepted_by_tie_tolerance)"]
+
+
+def replay(v) -> int:
+    print("re-run ./check C09 (the case needs TLC's sampled vector); stored case:")
+    import json
+
+    print(json.dumps(v["case"])[:2000])
+    print("expected", v["expected"], "observed", v["observed"])
+    return 1
